@@ -66,6 +66,8 @@ def line_shape(text):
         return "close"
     if t.endswith(("{", "(")):
         return "open"
+    if t.endswith("."):
+        return "dot"            # a selector broken after the dot: the selected name stands on the next line
     return "plain"
 
 
